@@ -177,7 +177,7 @@ class AppHost:
                     elif m["type"] == "http.request" and not m.get("more_body"):
                         body_done = True
                     if len(step) > 1 and step[1]:
-                        await self._pause(step[1])
+                        await self._pause(step[1], inst)
             elif op == "wait_disconnect":
                 while not disconnected:
                     m = await self._recv(inst, receive)
@@ -198,7 +198,7 @@ class AppHost:
                     raise error
                 for i, chunk in enumerate(chunks):
                     if pause:
-                        await self._pause(pause)
+                        await self._pause(pause, inst)
                     more = i < len(chunks) - 1
                     error = await self._send(
                         inst, send, {"type": "http.response.body", "body": chunk, "more_body": more}
@@ -218,7 +218,7 @@ class AppHost:
                     if error is not None:
                         raise error
             elif op == "pause":
-                await self._pause(step[1])
+                await self._pause(step[1], inst)
             elif op == "raise":
                 raise AppRaise(step[1] if len(step) > 1 else "boom")
             elif op == "raise_group":
@@ -243,11 +243,13 @@ class AppHost:
             else:
                 raise RuntimeError(f"unknown program step {op}")
 
-    async def _pause(self, spec: Any) -> None:
+    async def _pause(self, spec: Any, inst: Optional[Instance] = None) -> None:
         kind, amount = spec[0], spec[1]
-        # a pause repeated per message stops after 60 repetitions so that long bodies stay cheap
-        self._pauses = getattr(self, "_pauses", 0) + 1
-        if self._pauses > 60 * max(1, len(self.instances)):
+        # a pause repeated per message stops after 60 repetitions (per instance, so that the behaviour of an
+        # application does not depend on what other instances do) so that long bodies stay cheap
+        holder = inst if inst is not None else self
+        holder._pauses = getattr(holder, "_pauses", 0) + 1
+        if holder._pauses > 60:
             return
         if kind == "yield":
             for _ in range(amount):
